@@ -43,7 +43,20 @@ def run_jobs(jobs):
     return {r["name"]: r for r in results}
 
 
-def judge(exe, job, res, stats=None):
+def model_lines(exe, jobs, results):
+    """Run the extracted model on every enumerated program in parallel: {name: output line or exception}."""
+    tasks = [job for job in jobs if isinstance(results.get(job["name"], {}).get("runs"), list)]
+
+    def one(job):
+        try:
+            return common.run_driver(exe, [P.driver_line(P.from_json(job["ast"]))])[0]
+        except Exception as e:
+            return e
+    with cf.ThreadPoolExecutor(WORKERS) as ex:
+        return {job["name"]: line for job, line in zip(tasks, ex.map(one, tasks))}
+
+
+def judge(exe, job, res, stats=None, pre=None):
     bad = []
     prog = P.from_json(job["ast"])
     for k in ("compile_error", "unsupported", "crash"):
@@ -54,7 +67,9 @@ def judge(exe, job, res, stats=None):
     runs = res["runs"]
     if runs == "too-many-paths":
         return bad, 0
-    line = common.run_driver(exe, [P.driver_line(prog)])[0]
+    line = pre[job["name"]] if pre and job["name"] in pre else common.run_driver(exe, [P.driver_line(prog)])[0]
+    if isinstance(line, Exception):
+        line = "FAIL " + str(line)[:500]
     if line.startswith("FAIL"):
         bad.append(("correspondence", "model driver failed", dict(error=line)))
         return bad, len(runs)
@@ -88,16 +103,19 @@ def judge(exe, job, res, stats=None):
 
 def main():
     c = Check(PID, "proof")
-    c.cov["rule"] = ("dynamic programs from a seeded generator: 2-4 leaf behaviours with step-dependent preconditions, optional "
-                     "middle layer, do choose / do shuffle in dict (rational weights) and list form with repeated items, do, "
-                     "run-time DiscreteRange/Options draws, run-time require[p]; every RNG path of a whole DummySimulator run "
-                     "enumerated.  Non-trivial: > 1 RNG path and a choose/shuffle over >= 2 items; distinct by hash of source")
+    c.cov["rule"] = ("dynamic programs from a seeded generator (+ directed programs in corpus/C19): 2-4 leaf invocables with "
+                     "step-dependent preconditions, optional middle layer, do choose / do shuffle in dict (rational weights "
+                     "including 0) and list form with repeated items, do, run-time DiscreteRange/Options draws (zero weights "
+                     "too), run-time require[p]; as behaviours of an agent or as compose blocks of modular scenarios / "
+                     "sub-scenarios (half each); every RNG path of a whole DummySimulator run enumerated.  Non-trivial: > 1 RNG "
+                     "path and a choose/shuffle over >= 2 items; distinct by hash of source.  pick:* histogram entries count "
+                     "the programs reaching such a pick (ineligible item listed before an eligible one, zero weights, ...)")
     common.ensure_parser()
     if not os.environ.get("VERIF_DEV_NOPROOFS") and not c.proofs():
         c.finish()
     exe = common.build_ocaml(PID)
     quick = c.tier == "quick"
-    nprog = int(os.environ.get("VERIF_C19_N", 120 if quick else 6000))
+    nprog = int(os.environ.get("VERIF_C19_N", 120 if quick else 3000))
     jobs = []
     corpus_dir = os.path.join(common.VERIF, "corpus", PID)
     if os.path.isdir(corpus_dir):
@@ -111,13 +129,14 @@ def main():
         case = body.get("case", {})
         jobs = [case["job"]] if "job" in case else jobs[:3]
     results = run_jobs(jobs)
+    pre = model_lines(exe, jobs, results)
     for job in jobs:
         res = results.get(job["name"])
         if res is None:
             c.violation("harness", "no result for program", dict(job=job), no_input=True)
             continue
         stats = {}
-        bad, npaths = judge(exe, job, res, stats)
+        bad, npaths = judge(exe, job, res, stats, pre=pre)
         for k in stats:                      # programs in which such a pick is reached (spec evaluator)
             c.hist(k)
         c.hist("form:" + prog_form(job))
